@@ -20,7 +20,8 @@ RULE = ('Generated issuing parameters: key names (identity of 0..3 components + 
         'component of any type, subject key from the pool (EC P-256/384/521, RSA-1024/2048, Ed25519), issuing signer in {ECDSA three '
         'curves with pinned nonce (DER lengths vary), RSA, Ed25519, HMAC, synthetic (R reserved, r written)} with a drawn key-locator '
         'name; derive_cert start times naive or UTC-aware in years 1900..9990 biased to 31 Dec 23:59:59 / 1 Jan / 28-29 Feb and '
-        'durations 0 s..100 y; self_sign / sign_req under a patched clock; one case in six with a re-entrant signer (signs an audit Data '
+        'durations 0 s..100 y, also around daylight-saving changes with the process TZ set to a zone that observes them; issuing signers '
+        'whose key locator is the root name; self_sign / sign_req under a patched clock; one case in six with a re-entrant signer (signs an audit Data '
         'inside write_signature_value), one in five issues again with the same signer object after its key_locator_name was changed. Oracle: strict decode (one Data TLV, exact lengths), name == '
         'key name + [issuer, version(clock)], Content == public key, ContentType KEY, NotBefore/NotAfter == independently rendered '
         'instants, SignatureType and KeyLocator of the signer, signature verifies (pycryptodome) over the strict signed portion, '
@@ -72,6 +73,9 @@ _DATES = st.one_of(
     st.tuples(st.integers(1900, 9990), st.sampled_from([(12, 31, 23, 59, 59), (1, 1, 0, 0, 0), (2, 28, 23, 59, 59), (3, 1, 0, 0, 0),
                                                        (6, 15, 12, 30, 1)])).map(lambda t: [t[0], *t[1]]),
     st.sampled_from([1904, 1996, 2000, 2024, 2080, 2096, 2400, 9988]).map(lambda y: [y, 2, 29, 12, 0, 0]),
+    # around daylight-saving changes of common zones (US, EU, Lord Howe)
+    st.sampled_from([[2024, 3, 9, 12, 0, 0], [2024, 3, 10, 1, 30, 0], [2024, 11, 2, 12, 0, 0], [2024, 11, 3, 1, 30, 0],
+                     [2024, 3, 30, 12, 0, 0], [2024, 10, 26, 12, 0, 0], [2024, 4, 6, 12, 0, 0], [2024, 10, 5, 12, 0, 0]]),
     st.tuples(st.integers(1900, 9990), st.integers(1, 12), st.integers(1, 28), st.integers(0, 23), st.integers(0, 59),
               st.integers(0, 59)).map(list))
 
@@ -82,7 +86,7 @@ def _case(draw):
     ident = draw(S.name(0, 3, 10, allow_digest_types=False))
     key_id = draw(st.one_of(st.binary(min_size=1, max_size=8).map(bytes.hex), st.just('01')))
     signer = draw(K.signer_spec(['ecdsa', 'ecdsa', 'rsa', 'ed25519', 'hmac', 'synthetic'],
-                                kl=S.name(1, 4, 10, allow_digest_types=False)))
+                                kl=S.name(0, 4, 10, allow_digest_types=False)))
     if signer.get('kl') is None:
         signer['kl'] = [[8, '6b']]
     return {'fn': fn, 'ident': ident, 'key_id': key_id, 'rep': draw(st.sampled_from([0, 1, 3, 5])),
@@ -95,10 +99,35 @@ def _case(draw):
             'dur': draw(st.one_of(st.sampled_from([0, 1, 59, 60, 86399, 86400, 31536000, 100 * 365 * 86400]), st.integers(0, 10 ** 9))),
             'now': draw(_DATES), 'clock_ms': draw(st.integers(0, 2 ** 44)),
             'target_total': draw(st.one_of(st.none(), st.integers(245, 261))),
+            'proc_tz': draw(st.sampled_from([None] * 5 + ['EST5EDT,M3.2.0,M11.1.0', 'CET-1CEST,M3.5.0,M10.5.0/3',
+                                                         'LHST-10:30LHDT-11,M10.1.0,M4.1.0', 'UTC0'])),
             'reentrant': draw(st.integers(0, 5)) == 0, 'relocate': draw(st.integers(0, 4)) == 0}
 
 
 def run_case(case):
+    """The process's local time zone (TZ) must not matter: naive datetimes are wall-clock fields, aware ones carry their own offset."""
+    import os
+    import time
+    tz = case.get('proc_tz')
+    old = os.environ.get('TZ')
+    if tz:
+        os.environ['TZ'] = tz
+        time.tzset()
+    try:
+        res = _run_case(case)
+    finally:
+        if tz:
+            if old is None:
+                os.environ.pop('TZ', None)
+            else:
+                os.environ['TZ'] = old
+            time.tzset()
+    if tz:
+        res.classes = tuple(res.classes or ()) + ('process-tz-with-dst' if ',' in tz else 'process-tz-utc',)
+    return res
+
+
+def _run_case(case):
     r = Result()
     spec = case['signer']
     pub = K.KEYS[case['subject']]['pub']
